@@ -6,6 +6,7 @@ import (
 	"context"
 	"errors"
 	"fmt"
+	"runtime"
 	"strings"
 	"sync"
 	"time"
@@ -177,7 +178,9 @@ func runOp(r *announce.Receiver, o Op, ix idx, watchdog time.Duration) Obs {
 		cancel()
 	}
 	resc := make(chan Obs, 1)
+	started := make(chan struct{})
 	go func() {
+		close(started)
 		switch o.Kind {
 		case "close":
 			err := r.Close()
@@ -213,10 +216,22 @@ func runOp(r *announce.Receiver, o Op, ix idx, watchdog time.Duration) Obs {
 			panic("bad op " + o.Kind)
 		}
 	}()
+	// the watchdog runs from the moment the goroutine is running, so that a slow
+	// start on a loaded machine is not mistaken for a blocked call
+	<-started
 	select {
 	case ob := <-resc:
 		return ob
 	case <-time.After(watchdog):
+	}
+	// give a merely descheduled goroutine a last chance before declaring it blocked
+	for i := 0; i < 3; i++ {
+		runtime.Gosched()
+		select {
+		case ob := <-resc:
+			return ob
+		case <-time.After(watchdog / 8):
+		}
 	}
 	cancel()
 	select {
@@ -246,13 +261,40 @@ func errObs(err error) Obs {
 // RunRobust runs the history and, when a call was seen blocked or hung, runs it once
 // more with a five times longer watchdog and reports that second run.
 func RunRobust(cfg Config, ops []Op, watchdog time.Duration) []Obs {
-	obs := Run(cfg, ops, watchdog)
-	for _, o := range obs {
-		if o.Outcome == "blocked" || o.Outcome == "hung" || strings.HasPrefix(o.Outcome, "other:") {
-			return Run(cfg, ops, 5*watchdog)
+	suspicious := func(obs []Obs) bool {
+		for _, o := range obs {
+			if o.Outcome == "blocked" || o.Outcome == "hung" || strings.HasPrefix(o.Outcome, "other:") {
+				return true
+			}
 		}
+		return false
 	}
-	return obs
+	same := func(a, b []Obs) bool {
+		if len(a) != len(b) {
+			return false
+		}
+		for i := range a {
+			if a[i].Outcome != b[i].Outcome || a[i].Cid != b[i].Cid {
+				return false
+			}
+		}
+		return true
+	}
+	obs := Run(cfg, ops, watchdog)
+	if !suspicious(obs) {
+		return obs
+	}
+	// a blocked call may be a timing artefact: confirm with longer watchdogs and
+	// report an observation only when two runs agree on it
+	obs2 := Run(cfg, ops, 3*watchdog)
+	if same(obs, obs2) {
+		return obs2
+	}
+	obs3 := Run(cfg, ops, 10*watchdog)
+	if same(obs2, obs3) || same(obs, obs3) {
+		return obs3
+	}
+	return Run(cfg, ops, 25*watchdog)
 }
 
 // ---------------------------------------------------------------------------
